@@ -57,6 +57,10 @@ def world(env):
     terms[6] = m.Equals(m.Symbol("k1", S), m.Symbol("k2", S))
     terms[7] = m.And(m.Equals(m.Symbol("pa", Pair(INT, S)), m.Symbol("pc", Pair(INT, S))),
                      m.Not(m.Equals(m.Symbol("pb", Pair(S, INT)), m.Symbol("pd", Pair(S, INT)))))
+    # symbols of user-declared sorts that the simplification applied by add_assertion removes (k3 = k3)
+    T = Type("T")
+    terms[8] = m.And(m.Equals(m.Symbol("k3", T), m.Symbol("k3", T)), m.Or(p, m.LE(x, y)))
+    terms[9] = m.Or(m.Not(m.Equals(m.Symbol("pe", Pair(T, T)), m.Symbol("pe", Pair(T, T)))), m.Not(q))
     m0 = {p: m.TRUE(), q: m.TRUE(), x: m.Int(1), y: m.Int(2), b: m.BV(2, 2)}
     return terms, m0, [p, q, x, y, b]
 
@@ -207,7 +211,8 @@ def run(ck):
     SOLVE = {"c": "solve", "x": 0, "n": 0, "id": ""}
     sort_hists = [[A(6)], [A(7)], [A(6), A(7), SOLVE], [A(7), A(6), A(7)], [PU(1), A(7), PO(1), A(7), A(6)],
                   [A(7), PU(2), A(6), PO(1), A(6), SOLVE], [PU(1), A(6), PU(1), A(7), PO(2), A(7), A(6)],
-                  [A(1), PU(1), A(7), SOLVE, PO(1), A(6), {"c": "reset", "x": 0, "n": 0, "id": ""}, A(7), A(6)]]
+                  [A(1), PU(1), A(7), SOLVE, PO(1), A(6), {"c": "reset", "x": 0, "n": 0, "id": ""}, A(7), A(6)],
+                  [A(8)], [A(8), SOLVE, A(9)], [A(9), A(6), SOLVE], [PU(1), A(8), PO(1), A(8), A(6)], [A(6), PU(1), A(9), A(8), PO(1), A(9)]]
     # push(0) / pop(0) are legal no-ops
     GM = {"c": "get_model", "x": 0, "n": 0, "id": ""}
     zero_hists = [[A(1), PO(0), SOLVE, GM, A(3)], [A(1), PU(1), A(3), PO(0), SOLVE, GM, A(1), PO(1), A(3)],
